@@ -2032,11 +2032,34 @@ private:
         return std::size_t(1) << (f + ll); 
     }
 
+    // Tags of RFC 8746 typed arrays that are decoded into an array of numbers
+    static bool is_typed_array_tag(uint64_t tag)
+    {
+        switch (tag)
+        {
+            case 0x40: case 0x41: case 0x42: case 0x43: case 0x44: case 0x45: case 0x46: case 0x47:
+            case 0x48: case 0x49: case 0x4a: case 0x4b: case 0x4d: case 0x4e: case 0x4f:
+            case 0x50: case 0x51: case 0x52: case 0x54: case 0x55: case 0x56:
+                return true;
+            default:
+                return false;
+        }
+    }
+
     template <typename Read>
     void read_byte_string(Read read, generic_visitor& visitor, std::error_code& ec)
     {
         if (other_tags_[item_tag])
         {
+            // A typed array is one more level of nesting, unless it is the storage of a 
+            // multi-dimensional array, whose levels are counted when its extents are read
+            if (is_typed_array_tag(raw_tag_) && state_stack_.back().mode != parse_mode::multi_dim
+                && JSONCONS_UNLIKELY(nesting_depth_ >= max_nesting_depth_))
+            {
+                ec = cbor_errc::max_nesting_depth_exceeded;
+                more_ = false;
+                return;
+            }
             switch (raw_tag_)
             {
                 case 0x2:
@@ -2641,6 +2664,13 @@ private:
         read_extents(ec);   
         if (JSONCONS_UNLIKELY(ec))
         {
+            return;
+        }
+        // A multi-dimensional array is as deep as it has extents
+        if (JSONCONS_UNLIKELY(extents_.size() > static_cast<std::size_t>(max_nesting_depth_ - nesting_depth_)))
+        {
+            ec = cbor_errc::max_nesting_depth_exceeded;
+            more_ = false;
             return;
         }
 
